@@ -17,8 +17,8 @@ and the clauses checked on `r = m.rename_symbols(renames)` are
                kinematic variable)
   original     m is not mutated (deep snapshot before/after), r is a new object for a non-empty map
   unknown      a map that mentions no symbol of the model changes nothing
-  coupling     merging two parameters (same assumptions, or onto an existing one) leaves exactly
-               one symbol of that name and lowers the number of distinct symbols by exactly one
+  coupling     all symbols sent to one name are ONE symbol in the result (whatever their assumptions), and the
+               parameter/kinematic-variable keys are exactly the images of the original keys
   numeric      intensity of r on the carried-over values = intensity of m (substitution =
                precomposition of the environment), full chain four-momenta -> kinematic variables
                -> expression, relative 1e-12, re-checked in 40-digit arithmetic before reporting
@@ -81,25 +81,29 @@ def is_canonical(m) -> bool:
     return True
 
 
+def sort_key(s):
+    """The documented, deterministic order in which rename_symbols looks through the symbols (c9b6eb9)."""
+    return (s.name, str(sorted(s.assumptions0.items())))
+
+
 def spec_map(m, renames: dict):
-    """(map, ambiguous?) — the symbol map the property statement prescribes."""
+    """(map, ambiguous?) — the symbol map the property statement prescribes: symbols whose name is not in the map
+    stay; all symbols sent to one name become ONE symbol (coupling) — the unrenamed symbol that already has that
+    name if there is one, else a new symbol with the assumptions of the first source; 'first' by `sort_key`, so
+    that the result cannot depend on the iteration order of a set."""
     import sympy as sp
 
-    syms = all_symbols(m)
-    unrenamed_by_name: dict[str, list] = {}
+    syms = sorted(all_symbols(m), key=sort_key)
+    target_of_name: dict = {}
     for s in syms:
         if s.name not in renames:
-            unrenamed_by_name.setdefault(s.name, []).append(s)
-    mp = {}
+            target_of_name.setdefault(s.name, s)
     for s in syms:
         if s.name in renames:
             new = renames[s.name]
-            ex = unrenamed_by_name.get(new, [])
-            if len(ex) > 1:
-                return None, True
-            mp[s] = ex[0] if ex else sp.Symbol(new, **s.assumptions0)
-        else:
-            mp[s] = s
+            if new not in target_of_name:
+                target_of_name[new] = sp.Symbol(new, **s.assumptions0)
+    mp = {s: (target_of_name[renames[s.name]] if s.name in renames else s) for s in syms}
     return mp, False
 
 
@@ -228,7 +232,8 @@ def check_case(m, renames_arg, rng=None, numeric: bool = True, pickle_check: boo
     # ---- assumptions
     for s, t in changed.items():
         fresh = renames[s.name] not in {u.name for u in syms if u.name not in renames}
-        if fresh and t.assumptions0 != s.assumptions0:
+        alone = sum(1 for u in syms if u.name in renames and renames[u.name] == renames[s.name]) == 1
+        if fresh and alone and t.assumptions0 != s.assumptions0:
             bad("assumptions", "renamed symbol lost its assumptions", symbol=s)
     for s in res_syms & set(changed.values()):
         src = [u for u, t in changed.items() if t == s]
@@ -253,8 +258,8 @@ def check_case(m, renames_arg, rng=None, numeric: bool = True, pickle_check: boo
     key_syms_r = set(r.parameter_defaults) | set(r.kinematic_variables)
     for t, group in merged_groups.items():
         if len(group) > 1:
-            # the name is the final name of this one group only (another group sent to the same fresh
-            # name with other assumptions is the documented exception, notes/findings_C17.md)
+            # every symbol sent to that name is this one symbol: the result has no second symbol of the name
+            # unless the original had (two unrenamed symbols may share a name)
             only_group = sum(1 for t2 in merged_groups if t2.name == t.name) == 1
             n = [u for u in (res_syms | key_syms_r) if u.name == t.name]
             if only_group and len(n) > 1:
